@@ -675,4 +675,27 @@ N('PV-guard-split', ['C20'], 'frame.py', 'Frame.pivot',
   '            if index_depth > 1 and not f.index.equals(index_inner):\n                f = f.reindex(index_inner, own_index=True, check_equals=False) #pragma: no cover\n',
   '            if index_depth > 1:\n                if not f.index.equals(index_inner):\n                    f = f.reindex(index_inner, own_index=True, check_equals=False)\n')
 
+# ---------------------------------------------------------------------------------- reductions (C15)
+B('R-cast-2d-only', ['C15', 'C03'], 'type_blocks.py', 'TypeBlocks.ufunc_axis_skipna',
+  'if astype_pre and b.dtype != dtype:', 'if astype_pre and b.ndim == 2 and b.dtype != dtype:', 'I.layout-independent', 'ufunc_axis_skipna')
+B('R-axis0-labelled-by-index', ['C15'], 'frame.py', 'Frame._ufunc_axis_skipna',
+  '                    index=immutable_index_filter(self._columns)\n                    )\n        return Series(post, index=self._index)', '                    index=self._index\n                    )\n        return Series(post, index=self._index)', 'E.axis-labels', '_ufunc_axis_skipna')
+B('R-locmin-labels-crossed', ['C15'], 'frame.py', 'Frame.loc_min',
+  '        return Series(self.columns.values[post], index=self._index)', '        return Series(self.index.values[post], index=self._index)', 'E.axis-labels', 'Frame.loc_min')
+B('R-locmax-uses-argmin', ['C15'], 'frame.py', 'Frame.loc_max',
+  'post = argmax_2d(self.values, skipna=skipna, axis=axis)', 'post = argmin_2d(self.values, skipna=skipna, axis=axis)', 'E.axis-labels', 'Frame.loc_max')
+B('R-iloc-axis-dropped', ['C15'], 'frame.py', 'Frame.iloc_min',
+  'post = argmin_2d(self.values, skipna=skipna, axis=axis)', 'post = argmin_2d(self.values, skipna=skipna, axis=0)', 'E.axis-labels', 'Frame.iloc_min')
+B('R-count-labels-crossed', ['C15'], 'frame.py', 'Frame.count',
+  'labels = self._columns if axis == 0 else self._index', 'labels = self._index if axis == 0 else self._columns', 'E.axis-labels', 'Frame.count')
+B('R-skipna-inverted', ['C15'], 'util.py', 'ufunc_axis_skipna',
+  '    if skipna:\n        return ufunc_skipna(v, axis=axis, out=out)\n    return ufunc(v, axis=axis, out=out)', '    if not skipna:\n        return ufunc_skipna(v, axis=axis, out=out)\n    return ufunc(v, axis=axis, out=out)', 'I.skipna-selects', 'ufunc_axis_skipna')
+B('R-skipna-not-forwarded', ['C15'], 'frame.py', 'Frame._ufunc_axis_skipna',
+  '                skipna=skipna,\n                axis=axis,', '                skipna=True,\n                axis=axis,', 'E.axis-labels', '_ufunc_axis_skipna')
+B('R-cumulative-skip-swapped', ['C15'], 'frame.py', 'Frame._ufunc_shape_skipna',
+  '        if skipna:\n            post = ufunc_skipna(v, axis=axis, dtype=dtype)', '        if not skipna:\n            post = ufunc_skipna(v, axis=axis, dtype=dtype)', 'E.axis-labels', '_ufunc_shape_skipna')
+N('R-axis-test-flipped-form', ['C15'], 'frame.py', 'Frame.iloc_max',
+  '        if axis == 0:\n            return Series(post, index=immutable_index_filter(self._columns))\n        return Series(post, index=self._index)',
+  '        if axis == 1:\n            return Series(post, index=self._index)\n        return Series(post, index=immutable_index_filter(self._columns))')
+
 VARIANTS = V
